@@ -357,8 +357,8 @@ def one_case(rng, kind, k):
 def cases(ctx):
     rng = ctx.rng
     out = []
-    per = {'rigid_exact': ctx.scale(10, 120), 'rigid': ctx.scale(6, 60), 'columns': ctx.scale(4, 40), 'renumber': ctx.scale(5, 40),
-           'hydrogens': ctx.scale(5, 40), 'permute': ctx.scale(16, 96)}
+    per = {'rigid_exact': ctx.scale(16, 120), 'rigid': ctx.scale(8, 60), 'columns': ctx.scale(6, 40), 'renumber': ctx.scale(6, 40),
+           'hydrogens': ctx.scale(6, 40), 'permute': ctx.scale(24, 96)}
     for kind in KINDS:
         for k in range(per[kind]):
             out.append(one_case(rng, kind, k))
